@@ -267,6 +267,7 @@ type retPoint struct {
 type Engine struct {
 	wireEach    *Closure // predicate every sent frame must satisfy (vWireEach of the harness under verification)
 	inWireEach  bool
+	branchCache map[string]bool
 	strKeysUsed bool // a string-keyed map was accessed: string equality is tied to the key identity
 	prog      *ssa.Program
 	pkgs      map[string]*ssa.Package
